@@ -1,6 +1,6 @@
 (* corollaries of the simulation theorem used by Props/C09.v and Props/C18.v *)
 From Coq Require Import List NArith Bool.
-From MoSql Require Import Model.Peg Model.PegSim Proofs.PegProofs Proofs.PegSimProofs.
+From MoSql Require Import Model.Peg Model.PegSim Proofs.PegProofs Proofs.PegSimProofs Proofs.PegLog.
 Import ListNotations.
 Local Open Scope N_scope.
 
@@ -121,3 +121,13 @@ Proof.
   - intros a b g1 g2 r p H. contradiction.
   - intros q _. apply comm_id.
 Qed.
+
+(* the strong form (one table, one amount of fuel): the second parse also asks exactly the phi-image of the first parse's queries *)
+Lemma C09_same_derivation_pf : forall T o1 o2 len1 len2 phi root w0 f,
+  (forall a b, a < b -> phi a < phi b) -> len2 = phi len1 ->
+  o2 (QS w0 0) = phi (o1 (QS w0 0)) ->
+  (forall q, In q (snd (parse_all T o1 len1 f root w0)) -> comm o1 o2 phi q) ->
+  is_abort (fst (parse_all T o1 len1 f root w0)) = false ->
+  fst (parse_all T o2 len2 f root w0) = mapres phi (fst (parse_all T o1 len1 f root w0)) /\
+  tl (snd (parse_all T o2 len2 f root w0)) = map (mapq phi) (tl (snd (parse_all T o1 len1 f root w0))).
+Proof. intros. apply parse_all_same_table; auto. Qed.
